@@ -102,3 +102,44 @@ Proof.
   destruct (day_roundtrip _ Hd) as [_ [_ D3]]. destruct (time_roundtrip _ Hr) as [_ [_ T3]].
   unfold date_write, no_semi in *. rewrite !forallb_app, D3, T3. reflexivity.
 Qed.
+
+(* ---- IMF-fixdate (the form other implementations send) is read to its second ---- *)
+Lemma time_text_split r : time_text r = time8 r ++ frac_text.
+Proof. unfold time_text, time8. rewrite <- !app_assoc. reflexivity. Qed.
+
+Lemma imf_canonical s : date_lo <= s <= date_hi ->
+  length (imf_write s) = 29%nat /\ firstn 25 (imf_write s) ++ frac_text ++ zone_text = date_write s /\ sub (imf_write s) 25 4 = gmt_text.
+Proof.
+  intros Hs. destruct (seconds_split s Hs) as [Hd [Hr _]].
+  destruct (day_roundtrip _ Hd) as [_ [D2 _]]. destruct (time_roundtrip _ Hr) as [_ [T2 _]].
+  rewrite time_text_split, app_length in T2. cbn [frac_text list_of_string length] in T2.
+  assert (T8 : length (time8 (s mod 86400)) = 8%nat) by lia.
+  unfold imf_write, date_write. rewrite time_text_split.
+  set (A := day_text (s / 86400)) in *. set (B := time8 (s mod 86400)) in *.
+  assert (L25 : length (A ++ [c_sp] ++ B) = 25%nat) by (rewrite !app_length, D2, T8; reflexivity).
+  split; [rewrite !app_length, D2, T8; reflexivity|]. split.
+  - replace (A ++ [c_sp] ++ B ++ gmt_text) with ((A ++ [c_sp] ++ B) ++ gmt_text) by (rewrite <- !app_assoc; reflexivity).
+    rewrite firstn_app, L25, Nat.sub_diag, <- L25, firstn_all. cbn [firstn]. rewrite app_nil_r, <- !app_assoc. reflexivity.
+  - replace (A ++ [c_sp] ++ B ++ gmt_text) with ((A ++ [c_sp] ++ B) ++ gmt_text ++ []) by (rewrite app_nil_r, <- !app_assoc; reflexivity).
+    apply sub_mid; [exact L25|reflexivity].
+Qed.
+
+Theorem imf_roundtrip s : date_lo <= s <= date_hi -> imf_parse (imf_write s) = Some s.
+Proof.
+  intros Hs. destruct (imf_canonical s Hs) as [L [C G]].
+  unfold imf_parse. rewrite L, G, C. replace (bytes_eqb gmt_text gmt_text) with true by (vm_compute; reflexivity).
+  cbn [Nat.eqb andb]. apply date_roundtrip. exact Hs.
+Qed.
+
+(* Header::Date reading either form and writing: an IMF-fixdate comes out as the canonical text of the same second *)
+Theorem date_read_both s : date_lo <= s <= date_hi ->
+  date_read (date_write s) = Some s /\ (date_parse (imf_write s) = None -> date_read (imf_write s) = Some s).
+Proof.
+  intros Hs. unfold date_read. rewrite (date_roundtrip s Hs). split; [reflexivity|].
+  intros ->. apply imf_roundtrip. exact Hs.
+Qed.
+
+Lemma imf_not_canonical s : date_lo <= s <= date_hi -> date_parse (imf_write s) = None.
+Proof.
+  intros Hs. destruct (imf_canonical s Hs) as [L _]. unfold date_parse. rewrite L. reflexivity.
+Qed.
